@@ -135,9 +135,42 @@ def r_erase(sh, rep):
     # (a) infer_trace: every level yields `then`, possibly wrapped
     f = find_method(sh.file(TE), "ExprTyper", "infer_trace")
     rep.touched(TE, "ExprTyper::infer_trace")
-    m = [m for m in matches_in(f["body"]) if "trace_level" in sh.nsrc(TE, m["e"])]
+    lvl = {n["pat"]["name"] for n in walk(f["body"]) if n["k"] == "Local" and n["pat"]["k"] == "Ident" and n.get("init") is not None and "trace_level" in sh.nsrc(TE, n["init"])}
+
+    def reads_level(e):
+        src = sh.nsrc(TE, e)
+        return "trace_level" in src or any(re.search(r"(?<![\w.])%s\b" % re.escape(x), src) for x in lvl)
+
+    m = [m for m in matches_in(f["body"]) if reads_level(m["e"]) and len(m["arms"]) >= 3]
     if not m:
         raise AnchorMissing("match on trace_level in infer_trace")
+    # inference has effects (usage accounting decides which `let`s survive, errors are raised): every sub-expression
+    # is inferred whatever the level
+    def visit(node, under):
+        if isinstance(node, dict):
+            if node.get("k") == "If":
+                visit(node["cond"], under)
+                u = under or reads_level(node["cond"])
+                visit(node["then"], u)
+                visit(node.get("else"), u)
+                return
+            if node.get("k") == "Match" and node is not m[-1]:
+                visit(node["e"], under)
+                u = under or reads_level(node["e"])
+                for a in node["arms"]:
+                    visit(a, u)
+                return
+            if node.get("k") == "MethodCall" and node["m"].startswith("infer") and sh.nsrc(TE, node["recv"]) == "self" and under:
+                cond_inf.append(node)
+            for v in node.values():
+                visit(v, under)
+        elif isinstance(node, list):
+            for v in node:
+                visit(v, under)
+
+    cond_inf = []
+    visit(f["body"], False)
+    rep.check(not cond_inf, "R14-ERASE", "infer_trace#inference-is-level-independent", sh.loc(TE, cond_inf[0]) if cond_inf else sh.loc(TE, f), "infer_trace infers a sub-expression (`%s`) only under some trace level: what is not inferred is not accounted as used, so a `let` whose only use is a trace argument is dropped — with the abort it contained — in exactly those builds" % (sh.nsrc(TE, cond_inf[0])[:60] if cond_inf else ""), sample={"conditional_inferences": len(cond_inf)})
     outs = {}
     for v, arm, alt in arm_table(m[-1]):
         outs[v] = _erase(sh, TE, arm["body"])
@@ -221,6 +254,44 @@ def r_dual(sh, rep):
     for q, n in sites:
         key = next((k for k in reviewed if q.endswith(k)), None)
         rep.check(key is not None, "R14-DUAL", "%s#branches-on-otherwise" % q, sh.loc(GEN, n), "%s branches on whether an `otherwise` continuation exists — which is the case exactly when tracing is on — and is not the reviewed decoder choice: the traced build would run different code" % q, why_ok=reviewed.get(key, "") if key else "")
+    # (b) the presence of the continuation used as a *value*: it may name things, it may not steer lowering
+    FLAG_SINKS = {"expect_decoder_function_name": "picks the name (suffix _otherwise) under which the synthesised decoder is cached; both variants are generated by the same code"}
+    nflag = 0
+    for rel in (GEN, BLD):
+        for q, f in all_fns(sh.file(rel)):
+            if "body" not in f:
+                continue
+            cond_nodes = set()
+            for n in walk(f["body"]):
+                if n["k"] == "If":
+                    for x in walk(n["cond"]):
+                        cond_nodes.add(id(x))
+            for c in walk(f["body"]):
+                if c["k"] not in ("Call", "MethodCall"):
+                    continue
+                for a in c.get("args", []):
+                    if a.get("k") == "MethodCall" and a["m"] in ("is_some", "is_none") and re.fullmatch(r"otherwise(_delayed)?", sh.nsrc(rel, a["recv"])) and id(a) not in cond_nodes:
+                        nflag += 1
+                        sink = last(call_name(c) or "") if c["k"] == "Call" else c["m"]
+                        rep.check(sink in FLAG_SINKS, "R14-DUAL", "%s#otherwise-presence-passed-to#%s" % (q, sink), sh.loc(rel, a), "%s passes `%s` — true exactly when compiler traces are on — as a flag to `%s`: whatever that flag selects (here: whether a length / shape check is emitted) differs between the traced and the untraced build" % (q, sh.nsrc(rel, a), sink), why_ok=FLAG_SINKS.get(sink, ""), sample={"sink": sink})
+    # (c) sibling agreement of the low-level branch points `otherwise == Term::Error.delay()`: untraced -> the strict decoder
+    # that fails natively, traced -> the soft cast that jumps to the continuation; never the trusting decoder
+    nsib = 0
+    for rel in (GEN, BLD):
+        for q, f in all_fns(sh.file(rel)):
+            if "body" not in f:
+                continue
+            for n in walk(f["body"]):
+                if n["k"] == "If" and re.search(r"otherwise(_delayed)?==Term::Error\.delay\(\)", sh.nsrc(rel, n["cond"])) and "||" not in sh.nsrc(rel, n["cond"]):
+                    def decs(b):
+                        return sorted({last(call_name(c) or "") for c in walk(b) if c.get("k") == "Call" and re.search(r"data_to_type", call_name(c) or "")}) if b else []
+                    th, el = decs(n["then"]), decs(n.get("else"))
+                    if not th and not el:
+                        continue
+                    nsib += 1
+                    rep.check(th == ["unknown_data_to_type"] and el == ["softcast_data_to_type_otherwise"], "R14-DUAL", "%s#error-continuation-branch#%d" % (q, nsib), sh.loc(rel, n), "where no traced continuation exists the value must be decoded with unknown_data_to_type (fails by itself) and otherwise with softcast_data_to_type_otherwise; found %s / %s — the untraced build would accept data the traced build rejects" % (th, el), sample={"untraced": th, "traced": el})
+    if nsib < 4:
+        rep.bad("R14-DUAL", "error-continuation-branches", GEN, "only %d decoder branch points on `otherwise == Term::Error.delay()` found, 4 confirmed by hand (anchor)" % nsib)
     if not sites:
         rep.bad("R14-DUAL", "branch-point-found", GEN, "the reviewed branch on `otherwise` in CodeGenerator::assignment was not found (anchor)")
     rep.guarded("R14-DUAL", lambda: cast_rules.rule_cast(sh, rep, "R14-DUAL"))
